@@ -7,8 +7,10 @@ THEOREMS = ['rd_no_panic', 'rd_total', 'ends_with_error', 'wait_only_when_closin
             'oversize_is_error', 'reply_complete_or_error', 'connect_ends_with_error',
             'old_gsv_panics', 'old_oversize_empty_success',
             # about the go2seq translation of the source, for every environment
-            'src_read_loop_never_nil', 'src_read_error_ends_loop']
-MODULES = ['LLRP.Proofs.SeqReadLoop', 'LLRP.Model.GoSeq', 'LLRP.Model.ReadSide', 'LLRP.Model.ReadStages', 'LLRP.Proofs.ReadSide', 'LLRP.Oracle.C04', 'LLRP.Oracle.C10']
+            'src_read_loop_never_nil', 'src_read_error_ends_loop',
+            # ReadSide.dispatch proved equal to the go2seq translation of Client.passToHandler
+            'src_dispatch']
+MODULES = ['LLRP.Proofs.SeqDispatchEq', 'LLRP.Proofs.SeqReadLoop', 'LLRP.Model.GoSeq', 'LLRP.Model.ReadSide', 'LLRP.Model.ReadStages', 'LLRP.Proofs.ReadSide', 'LLRP.Oracle.C04', 'LLRP.Oracle.C10']
 RULE = ('[device-service leg: 1-4 real LLRPDevices fed UTC- and uptime-stamped reports and events, truncated reports and garbage by scripted readers (the C13 traffic); judged: no goroutine of the service panics] [trickle: a reply whose payload arrives after its caller gave up, then an ordinary exchange] '
         'two valid session transcripts (1.0.1: greeting, two request/reply exchanges, keep-alive, tag report; 1.1: greeting, '
         'GetSupportedVersion and SetProtocolVersion exchanges, keep-alive), each frame of each transcript mutated: truncation at header '
